@@ -186,19 +186,27 @@ def _sequential_table(p, led, tier, cascade, runfi):
     npaths = nconf = 0
     for n in sizes:
         combos = list(itertools.product(shapes, repeat=n)) if n <= 2 else [c for c in itertools.product(shapes, repeat=n) if c[0][0] and c[1][1]]
-        for combo in combos:
-            for halt in (True, False):
+        variants = [(c_, h_, "plain") for c_ in combos for h_ in (True, False)]
+        if n == 2:
+            # stages that share a name (add_stage accepts it): judged stage by stage all the same
+            variants += [(c_, h_, "same-name") for c_ in combos for h_ in (True, False)]
+        # the same cascade run a second time on the same signal after a first run in which everything passed: nothing the
+        # first run left behind (a remembered gate verdict, a counter) may stand in for this run's gates
+        variants += [(c_, h_, "second-run") for c_ in combos if all(x[0] for x in c_) for h_ in (True, False)]
+        for combo, halt, variant in variants:
+            if True:
                 nconf += 1
 
-                def go(o, _combo=combo, _halt=halt):
+                def go(o, _combo=combo, _halt=halt, _variant=variant):
                     it = Interp(p, o)
                     log = []
+                    phase = {"first": _variant == "second-run"}
                     casc = it.instantiate(cascade, ["c"], dict(halt_on_failure=_halt, max_amplification=MAXAMP, silent=True))
                     for i, (has_cp, required, has_err) in enumerate(_combo):
                         def mk(i=i):
                             @stub
                             def cp(interp, args, kwargs):
-                                k = interp.o.choose(3, f"checkpoint {i}: passes / refuses / raises")
+                                k = 0 if phase["first"] else interp.o.choose(3, f"checkpoint {i}: passes / refuses / raises")
                                 log.append(("cp", i, args[0], k))
                                 if k == 2:
                                     raise PyRaise(ExcVal("RuntimeError", ("gate crashed",)))
@@ -206,7 +214,7 @@ def _sequential_table(p, led, tier, cascade, runfi):
 
                             @stub
                             def proc(interp, args, kwargs):
-                                k = interp.o.choose(2, f"processor {i}: returns / raises")
+                                k = 0 if phase["first"] else interp.o.choose(2, f"processor {i}: returns / raises")
                                 log.append(("proc", i, args[0], k))
                                 if k == 1:
                                     raise PyRaise(ExcVal("RuntimeError", ("stage failed",)))
@@ -221,11 +229,15 @@ def _sequential_table(p, led, tier, cascade, runfi):
                                 return Unknown(f"recovered{i}")
                             return cp, proc, err
                         cp, proc, err = mk()
-                        st = it.instantiate(stage_cls, [], dict(name=f"s{i}", processor=proc, amplification=FACTORS[i], checkpoint=cp if has_cp else None,
+                        st = it.instantiate(stage_cls, [], dict(name=("s" if _variant == "same-name" else f"s{i}"), processor=proc, amplification=FACTORS[i], checkpoint=cp if has_cp else None,
                                                                 on_error=err if has_err else None, required=required))
                         it.call_fi(p.find_method(cascade, "add_stage"), [casc, st], {})
                     inp = Unknown("input")
                     try:
+                        if phase["first"]:
+                            it.call_fi(runfi, [casc, inp], {})
+                            phase["first"] = False
+                            del log[:]
                         r = it.call_fi(runfi, [casc, inp], {})
                     except PyRaise as e:
                         return dict(raised=repr(e.exc), log=log)
@@ -237,7 +249,7 @@ def _sequential_table(p, led, tier, cascade, runfi):
                     raise AnchorError(f"Cascade.run could not be interpreted for pipeline {combo}: {e}")
                 npaths += len(paths)
                 for r in paths:
-                    tag = f"stages(checkpoint,required,on_error)={list(combo)} halt_on_failure={halt}"
+                    tag = f"stages(checkpoint,required,on_error)={list(combo)} halt_on_failure={halt}" + ({"plain": "", "same-name": ", all stages share one name", "second-run": ", second run of the same cascade on the same signal"}[variant])
                     if "raised" in r:
                         probs["C19-R2"].append(f"{tag}: run raises {r['raised']}")
                         continue
